@@ -4,13 +4,17 @@ import itertools
 VARIANTS = ("text", "number-printf", "number-sexa", "switch-OneOfMany", "switch-AtMostOne", "switch-AnyOfMany", "light", "blob")
 
 
+# further number formats (not in VARIANTS: used by the checks that want them)
+NUMBER_FORMATS = {"number-printf": "%.2f", "number-sexa": "%.6m", "number-sexa3": "%.3m", "number-sexa5": "%.5m", "number-sexa8": "%.8m", "number-sexa9": "%.9m", "number-g": "%g", "number-d": "%d"}
+
+
 def target_vector(variant, enabled=True):
     kind = variant.split("-")[0]
     v = dict(attr="t", kind=kind, name="TGT", enabled=enabled, label="Target")
     if kind == "text":
         v["elements"] = [dict(attr="a", name="A", default="x", label="El A"), dict(attr="b", name="B", default="y")]
     elif kind == "number":
-        fmt = "%.2f" if variant == "number-printf" else "%.6m"
+        fmt = NUMBER_FORMATS[variant]
         # element A states its range, element B relies on the definition defaults
         # element A states its range; element B's limits are floats that Python prints with an exponent
         v["elements"] = [dict(attr="a", name="A", default=1.5, format=fmt, min=-400, max=400, step=1), dict(attr="b", name="B", default=2.25, format=fmt, min=-1e16, max=1e16, step=0.00001)]
